@@ -183,6 +183,7 @@ class Ctx:
         self.loops = []            # emitted loop definitions (text)
         self.nloops = 0
         self.inline_depth = 0
+        self.new_state = []        # state used by the body that the model definition does not thread
 
     def fresh(self, base, ty=None):
         base = re.sub(r"[^A-Za-z0-9_]", "", base) or "x"
@@ -241,6 +242,11 @@ class Impure(Exception):
 
 
 class NeedPartial(Exception):
+    pass
+
+
+class Differs(Exception):
+    """the whole body was read; the only obstacle is state / parameters the model definition has no slot for"""
     pass
 
 
@@ -387,6 +393,16 @@ class Comp:
                 return k(Val("ptr", "Ptr." + PTR_CTORS[e[1]]), env, st)
             if e[1] == "None":
                 return k(Val("opt:ptr", "none"), env, st)
+            if re.match(r"^[A-Z][A-Z0-9_]*$", e[1]):
+                # `const NAME: usize = <literal>;` of the same file
+                t = self.ctx.toks
+                for j in range(len(t) - 6):
+                    if t[j][1] == "const" and t[j + 1][1] == e[1] and t[j + 2][1] == ":":
+                        jj = j + 3
+                        while jj < len(t) and t[jj][1] != "=":
+                            jj += 1
+                        if jj + 2 < len(t) and t[jj + 1][0] == "num" and t[jj + 2][1] == ";":
+                            return k(Val("nat", str(int(re.match(r"[\d_]+", t[jj + 1][1]).group(0).replace("_", "")))), env, st)
             raise Untranslatable("unknown identifier `%s`" % e[1])
         if kind == "num":
             return k(Val("nat", str(e[1])), env, st)
@@ -460,7 +476,7 @@ class Comp:
         if kind == "block":
             return self.stmts(e[1], e[2], env, st, fl, k)
         if kind == "closure":
-            return k(Val("closure", params=e[1], body=e[2], env=env), env, st)
+            return k(Val("closure", params=e[1], body=e[2], env=dict(env)), env, st)
         if kind == "return":
             if self.pure_mode:
                 raise Impure()
@@ -487,6 +503,11 @@ class Comp:
         if v.ty == "self":
             if name == "should_compress":
                 return Val("bool", "cmpr")
+            if name not in ("app_cache", "ite_cache", "vtree", "bdd_tbl", "sdd_tbl") and not name.startswith("num_"):
+                note = "field `self.%s` (no counterpart in the model's builder state)" % name
+                if note not in self.ctx.new_state:
+                    self.ctx.new_state.append(note)
+                return Val("opaque", "NEWSTATE")
             return Val("selffield", name=name)
         if v.ty == "elem" and name in ("prime", "sub"):
             return elem_parts(v)[0 if name == "prime" else 1]
@@ -611,6 +632,8 @@ class Comp:
             if args and self.try_pure(args[0], env, st) is None:
                 raise Untranslatable("capacity expression with effects")
             return k(Val("elems", "[]", items=[]), env, st)
+        if head is None and name in env and env[name].ty == "closure":
+            return self.inline_closure(env[name], args, env, st, fl, k)
         if head is None:
             return self.inline_free(name, args, env, st, fl, k)
         raise Untranslatable("call of " + "::".join(segs))
@@ -651,6 +674,47 @@ class Comp:
                 self.ctx.inline_depth -= 1
         return self.exs(args, env, st, fl, k1)
 
+    def inline_closure(self, c, args, env, st, fl, k):
+        """call of a closure held in a local: its body with the parameters bound (captured variables as they were
+        when the closure was made; closures here never capture by mutable reference)"""
+        if self.ctx.inline_depth > 3:
+            raise Untranslatable("closure nesting")
+
+        def k1(vs, env2, st2):
+            if len(vs) != len(c.params):
+                raise Untranslatable("closure arity")
+            envc = dict(c.env)
+            for key in env2:
+                if key.startswith("%"):
+                    envc[key] = env2[key]
+            for pat, v in zip(c.params, vs):
+                self.bindpat(pat, v, envc)
+            self.ctx.inline_depth += 1
+            try:
+                def kb(v, envb, stb):
+                    for key in envb:
+                        if key.startswith("%"):
+                            env2[key] = envb[key]
+                    return k(v, env2, stb)
+                return self.ex(c.body, envc, st2, Flow(ret=self.no_return), kb)
+            finally:
+                self.ctx.inline_depth -= 1
+        return self.exs(args, env, st, fl, k1)
+
+    def closure1(self, c, elem_ty, env, st):
+        """a one-parameter closure applied to a fresh Lean variable: (variable, pure body value)"""
+        if c[0] != "closure" or len(c[1]) != 1:
+            raise Untranslatable("iterator adaptor without a one-parameter closure")
+        x = self.ctx.fresh(c[1][0][1] if c[1][0][0] == "bind" else "x")
+        envc = dict(env)
+        self.bindpat(c[1][0], Val(elem_ty, x), envc)
+        b = self.try_pure(c[2], envc, st)
+        if b is None:
+            if self.pure_mode:
+                raise Impure()
+            raise Untranslatable("closure of an iterator adaptor with effects / panics")
+        return x, b
+
     @staticmethod
     def no_return(v, env, st):
         raise Untranslatable("`return` inside an inlined helper")
@@ -670,6 +734,24 @@ class Comp:
             raise Untranslatable("self.%s.%s" % (rv.name, name))
         if ty == "cell":
             return self.cellcall(rv.name, name, args, env, st, fl, k)
+        if ty == "opaque":
+            # a container the model does not have: its arguments must still be readable; the results are placeholders
+            # (the generated text of this function is discarded: status DIFFERS)
+            def ko(vs, env2, st2):
+                if name in ("borrow", "borrow_mut", "as_ref", "as_mut", "iter", "clone", "lock", "unwrap", "get_mut_or_default"):
+                    return k(Val("opaque", "NEWSTATE"), env2, st2)
+                if name in ("get", "remove", "get_mut", "pop", "take", "cloned", "copied"):
+                    return k(Val("opt:ptr", "NEWSTATE"), env2, st2)
+                if name in ("insert", "push", "clear", "set", "replace", "extend", "truncate"):
+                    if self.pure_mode:
+                        raise Impure()
+                    return k(Val("unit"), env2, st2)
+                if name in ("contains_key", "contains", "is_empty", "is_some", "is_none"):
+                    return k(Val("bool", "NEWSTATE"), env2, st2)
+                if name in ("len", "count"):
+                    return k(Val("nat", "NEWSTATE"), env2, st2)
+                raise Untranslatable("method .%s on new builder state" % name)
+            return self.exs(args, env, st, fl, ko)
         if ty == "vtm":
             return self.vtmcall(name, args, env, st, fl, k)
         if ty == "vtnode":
@@ -730,16 +812,56 @@ class Comp:
             return k(Val("nat", par(rv.t) + ".length"), env, st)
         if name == "is_empty" and not args:
             return k(Val("prop", "%s = []" % par(rv.t)), env, st)
-        if name == "find" and len(args) == 1 and args[0][0] == "closure" and len(args[0][1]) == 1 \
-                and args[0][1][0][0] == "bind":
-            c = args[0]
-            x = self.ctx.fresh(c[1][0][1])
-            envc = dict(env)
-            envc[c[1][0][1]] = Val("elem", x)
-            b = self.try_pure(c[2], envc, st)
-            if b is None or b.ty not in ("bool", "prop"):
-                raise Untranslatable("closure of find")
-            return k(Val("opt:elem", "List.find? (fun %s => %s) %s" % (x, to_bool(b), par(rv.t))), env, st)
+        if name in ("collect", "copied", "cloned", "by_ref") and not args:
+            return k(rv, env, st)
+        if name in ("find", "any", "all", "filter", "position") and len(args) == 1:
+            x, b = self.closure1(args[0], "elem", env, st)
+            if b.ty not in ("bool", "prop"):
+                raise Untranslatable("predicate closure of type " + b.ty)
+            f = "(fun %s => %s)" % (x, to_bool(b))
+            if name == "find":
+                return k(Val("opt:elem", "List.find? %s %s" % (f, par(rv.t))), env, st)
+            if name == "filter":
+                return k(Val("elems", "(List.filter %s %s)" % (f, par(rv.t))), env, st)
+            if name == "position":
+                return k(Val("opt:nat", "List.findIdx? %s %s" % (f, par(rv.t))), env, st)
+            return k(Val("bool", "List.%s %s %s" % (name, par(rv.t), f)), env, st)
+        if name == "map" and len(args) == 1 and args[0][0] == "closure" and len(args[0][1]) == 1 and not self.pure_mode:
+            # a closure with effects (calls back into the builder): `it.map(|a| e)` is the loop that pushes `e`
+            probe = None
+            try:
+                probe = self.closure1(args[0], "elem", dict(env), st)
+            except Untranslatable:
+                probe = None
+            if probe is None:
+                self.ctx.nloops += 0
+                tmp_it, tmp_v = self.ctx.fresh("it"), self.ctx.fresh("mapped")
+                env[tmp_it] = rv
+                blk = ("block", [("let", ("bind", tmp_v), ("call", ("path", ["Vec", "new"]), [])),
+                                 ("for", args[0][1][0], ("id", tmp_it),
+                                  ("block", [("expr", ("mcall", ("id", tmp_v), "push", [args[0][2]]))], None))],
+                       ("id", tmp_v))
+
+                def kdone(v, env2, st2):
+                    env2.pop(tmp_it, None)
+                    env2.pop(tmp_v, None)
+                    return k(v, env2, st2)
+                return self.stmts(blk[1], blk[2], env, st, fl, kdone)
+        if name == "map" and len(args) == 1:
+            x, b = self.closure1(args[0], "elem", env, st)
+            if b.ty == "elem":
+                return k(Val("elems", "(List.map (fun %s => %s) %s)" % (x, elem_term(b), par(rv.t))), env, st)
+            if b.ty == "ptr":
+                return k(Val("ptrs", "(List.map (fun %s => %s) %s)" % (x, b.t, par(rv.t))), env, st)
+            raise Untranslatable("map to " + b.ty)
+        if name in ("first", "last") and not args:
+            return k(Val("opt:elem", "%s.%s" % (par(rv.t), "head?" if name == "first" else "getLast?")), env, st)
+        if name == "contains" and len(args) == 1:
+            def kc(v, env2, st2):
+                if v.ty != "elem":
+                    raise Untranslatable("contains of " + v.ty)
+                return k(Val("bool", "List.contains %s %s" % (par(rv.t), par(elem_term(v)))), env2, st2)
+            return self.ex(args[0], env, st, fl, kc)
         # mutation of a local vector (receiver must be a plain local)
         var = e[1][1] if e[1][0] == "id" else None
         if name == "push" and len(args) == 1 and var:
@@ -751,7 +873,7 @@ class Comp:
                 if fl is not None and fl.vec == var:
                     env2["%pending"] = env2.get("%pending", ()) + (("one", elem_term(v)),)
                     return k(Val("unit"), env2, st2)
-                if fl is not None and fl.cont is not None:
+                if fl is not None and fl.cont is not None and not getattr(fl, "acc", False):
                     raise Untranslatable("push on a second vector inside a loop")
                 cur = env2[var]
                 items = getattr(cur, "items", None)
@@ -876,6 +998,19 @@ class Comp:
                 return self.bind_st(lambda s: "iteF %s %s %s %s" % (s, t[0], t[1], t[2]), "r", "ptr", env2, st2, k, which="ai")
             if name == "iff" and tys == ["ptr"] * 2:
                 return self.bind_st(lambda s: "iffF %s %s %s" % (s, t[0], t[1]), "r", "ptr", env2, st2, k, which="ai")
+            if name in ("app_cache_get", "app_cache_insert") and "A" not in ctx_names(self.spec["ctx"]):
+                note = "the apply cache (`self.%s`) is used directly; the model definition only reaches it through `and`" % name
+                if note not in self.ctx.new_state:
+                    self.ctx.new_state.append(note)
+            if name in ("ite_cache_get", "ite_cache_insert", "ite_cache_hash") and "I" not in ctx_names(self.spec["ctx"]):
+                note = "the ite cache (`self.%s`) is used; the model definition does not thread it" % name
+                if note not in self.ctx.new_state:
+                    self.ctx.new_state.append(note)
+                if name == "ite_cache_hash":
+                    return k(Val("hash", of=vs[0].t), env2, st2)
+                if name == "ite_cache_get":
+                    return k(Val("opt:ptr", "NEWSTATE"), env2, st2)
+                return k(Val("unit"), env2, st2)
             if name == "app_cache_get" and tys == ["elem"]:
                 if st2.a is None:
                     raise Untranslatable("apply cache outside a stateful function")
@@ -1100,6 +1235,8 @@ class Comp:
                 b = self.try_pure(el, dict(env), st)
                 if a is not None and b is not None and a.ty == b.ty and a.ty in ("ptr", "nat", "elems"):
                     return k(Val(a.ty, "(if %s then %s else %s)" % (as_prop(c), a.t, b.t)), env, st)
+                if a is not None and b is not None and a.ty == "elem" and b.ty == "elem":
+                    return k(Val("elem", "(if %s then %s else %s)" % (as_prop(c), elem_term(a), elem_term(b))), env, st)
                 if a is not None and b is not None and a.ty in ("bool", "prop") and b.ty in ("bool", "prop"):
                     return k(Val("bool", "(if %s then %s else %s)" % (as_prop(c), to_bool(a), to_bool(b))), env, st)
         if self.pure_mode:
@@ -1368,6 +1505,8 @@ class Comp:
                 return rest(env, st)          # statistics counter
             if lhs[0] == "id" and lhs[1] in env and op == "=":
                 def ka(v, env2, st2):
+                    if v.ty == "prop" and env2[lhs[1]].ty == "bool":
+                        v = Val("bool", to_bool(v))
                     if v.ty != env2[lhs[1]].ty:
                         raise Untranslatable("assignment changes the type")
                     env2[lhs[1]] = v
@@ -1474,7 +1613,7 @@ class Comp:
             raise Untranslatable("`while` loop in a function without a fuel parameter")
         if kind == "while" and getattr(self, "in_while", 0):
             raise Untranslatable("nested `while` loops (one fuel parameter per function: fuel accounting is outside the grammar)")
-        if kind == "for" and (pat is None or pat[0] != "bind"):
+        if kind in ("for", "each") and (pat is None or pat[0] != "bind"):
             raise Untranslatable("loop pattern")
         self.none()
         muts = [n for n in mutated_vars(body) if n in env]
@@ -1498,6 +1637,11 @@ class Comp:
             if kind == "for":
                 ivar = ctx.fresh(pat[1], "Nat")
                 envb[pat[1]] = Val("nat", ivar)
+            if kind == "each":
+                if hv.ty != "elems":
+                    raise Untranslatable("loop over a " + hv.ty)
+                ivar = ctx.fresh(pat[1], "Elem")
+                envb[pat[1]] = Val("elem", ivar)
             sig = self.spec["sigma"]
             mty = " × ".join(LEAN_TY[env1[n].ty] for n in muts) or "Unit"
 
@@ -1513,16 +1657,23 @@ class Comp:
                     raise Untranslatable("push inside an index loop")
                 if kind == "while":
                     return ("%s fuel %s %s" % (CALL, stc.a, margs(envc))).rstrip()
+                if kind == "each":
+                    return ("%s %s rest %s" % (CALL, stc.a, margs(envc))).rstrip()
                 return ("%s k %s (%s + 1) %s" % (CALL, stc.a, ivar, margs(envc))).rstrip()
 
             def brk(envc, stc):
+                if kind == "each":
+                    return "some (%s, .inr %s)" % (stc.a, tup(envc))
                 return "some (%s, %s)" % (stc.a, tup(envc))
 
             def ret(v, envc, stc):
+                if kind == "each" and v.ty == "ptr":
+                    return "some (%s, .inl %s)" % (stc.a, par(v.t))
                 raise Untranslatable("`return` inside an index loop")
             flb = Flow(ret=ret, cont=cont, brk=brk, vec=None)
+            flb.acc = True
             saved_rt = self.rtype
-            self.rtype = "Option (%s × (%s))" % (sig, mty)
+            self.rtype = "Option (%s × (%s))" % (sig, mty) if kind != "each" else "Option (%s × Sum Ptr (%s))" % (sig, mty)
             try:
                 stb = State(a="st", i="st")
                 if kind == "while":
@@ -1550,6 +1701,12 @@ class Comp:
                                  "  | fuel + 1, st%s =>\n%s\n" % (lname, self.spec["ctx"], params, sig, mtys, sig, mty,
                                                                   mpat, mpat, ind(body_text, 4)))
                 site = "%s wf %s %s" % (call, st1.a, margs(env1))
+            elif kind == "each":
+                ctx.loops.append("def %s %s %s : %s → List Elem%s → Option (%s × Sum Ptr (%s))\n  | st, []%s => some (st, .inr %s)\n"
+                                 "  | st, %s :: rest%s =>\n%s\n" % (lname, self.spec["ctx"], params, sig, mtys, sig, mty, mpat,
+                                                                    "(" + ", ".join(mparams) + ")" if mparams else "()",
+                                                                    ivar, mpat, ind(body_text, 4)))
+                site = "%s %s %s %s" % (call, st1.a, par(hv.t), margs(env1))
             else:
                 ctx.loops.append("def %s %s %s : Nat → %s → Nat%s → Option (%s × (%s))\n  | 0, st, %s%s => some (st, %s)\n"
                                  "  | k + 1, st, %s%s =>\n%s\n" % (lname, self.spec["ctx"], params, sig, mtys, sig, mty,
@@ -1566,8 +1723,15 @@ class Comp:
                 env2[n] = Val(env1[n].ty, x)
                 news.append(x)
             pat_t = "(" + ", ".join(news) + ")" if news else "_"
+            if kind == "each":
+                r = ctx.fresh("r", "Ptr")
+                early = fl.ret(Val("ptr", r), dict(env1), st1.with_(a=s2))
+                return "match %s with\n| none => none\n| some (%s, .inl %s) => %s\n| some (%s, .inr %s) =>\n%s" % (
+                    site.rstrip(), s2, r, early, s2, pat_t, ind(rest(env2, st1.with_(a=s2))))
             return "match %s with\n| none => none\n| some (%s, %s) =>\n%s" % (
                 site.rstrip(), s2, pat_t, ind(rest(env2, st1.with_(a=s2))))
+        if kind == "each":
+            return self.ex(head, env, st, fl, after_head)
         if kind == "while":
             return after_head(None, env, st)
         lo = self.try_pure(head[1], env, st)
@@ -1607,8 +1771,10 @@ class Comp:
         if pat[0] != "bind":
             raise Untranslatable("loop pattern")
         vecs = sorted(push_targets(body))
-        if len(vecs) > 1:
-            raise Untranslatable("loop pushes on several vectors")
+        others = [n for n in mutated_vars(body) if n in env and n not in vecs]
+        if len(vecs) > 1 or others or (vecs and reads_var(body, vecs[0])) or getattr(fl, "acc", False):
+            # locals other than one append-only vector are carried through the loop: accumulator style
+            return self.state_loop("each", it, pat, body, env, st, fl, rest)
         vec = vecs[0] if vecs else None
         if vec is not None and (vec not in env or env[vec].ty != "elems"):
             raise Untranslatable("loop pushes on a vector declared inside it")
@@ -1879,9 +2045,41 @@ SPECS = [
 UNT = "UNTRANSLATED (translator route not available, tied by correspondence only): "
 
 
-def compile_fn(spec, toks):
-    params, ret, body = find_fn(toks, spec["rust"], after=["impl", "<", "'a", ",", "T", ">"] if (
-        spec["file"] == B and spec["rust"] in ("var", "negate", "and", "condition", "ite", "iff", "xor", "exists")) else None)
+IMPL_ANCHOR = ["impl", "<", "'a", ",", "T", ">"]
+# context a body may need beyond the parameters of the model definition it is compared with ({S} = apply-cache
+# state type, {P} = state type of the function): added to the generated signature when used, so that the tie
+# theorem then fails on the TYPE (the function was read, it now depends on more than the model does)
+CTX_EXTRA = [
+    ("vt", "(vt : VTree)"), ("cmpr", "(cmpr : Bool)"), ("andF", "(andF : AndF {S})"),
+    ("condF", "(condF : {S} → Ptr → Nat → Bool → Option ({S} × Ptr))"),
+    ("existsF", "(existsF : {S} → Ptr → Nat → Option ({S} × Ptr))"),
+    ("iteF", "(iteF : {P} → Ptr → Ptr → Ptr → Option ({P} × Ptr))"),
+    ("iffF", "(iffF : {P} → Ptr → Ptr → Option ({P} × Ptr))"),
+]
+
+
+def extend_ctx(spec, texts):
+    """binders for context symbols used by the generated text but absent from the model signature"""
+    have = set(ctx_names(spec["ctx"]))
+    S_ = "A.σ" if "A" in have else ("σ" if "σ" in spec["ctx"] else ("τ" if "τ" in spec["ctx"] else None))
+    P_ = spec["sigma"] if spec["state"] == "ai" else None
+    extra = []
+    blob = "\n".join(texts)
+    for name, binder in CTX_EXTRA:
+        if name in have or not re.search(r"(?<![A-Za-z0-9_.'])%s(?![A-Za-z0-9_'])" % name, blob):
+            continue
+        if ("{S}" in binder and S_ is None) or ("{P}" in binder and P_ is None):
+            raise Untranslatable("uses `%s`, which needs builder state this function does not thread" % name)
+        extra.append(binder.replace("{S}", S_ or "").replace("{P}", "(%s)" % P_ if P_ else ""))
+    return extra
+
+
+def compile_fn(spec, toks, override=None):
+    if override is not None:
+        params, ret, body = override
+    else:
+        params, ret, body = find_fn(toks, spec["rust"], after=IMPL_ANCHOR if (
+            spec["file"] == B and spec["rust"] in ("var", "negate", "and", "condition", "ite", "iff", "xor", "exists")) else None)
     rty = rust_type(ret) if not (spec["rust"] == "vtree" and spec["file"] == R) else "nat"
     if spec["rust"] in ("vtree_index",):
         rty = "nat"
@@ -1892,9 +2090,12 @@ def compile_fn(spec, toks):
     if rty != spec["rty"] and not (rty == "unit" and spec["ret"] == "state") and not (spec["rust"] == "compress"):
         raise Untranslatable("return type `%s`" % ret)
     last = None
-    for attempt in (0, 1):
+    extra_ctx = []
+    for attempt in (0, 1, 2, 3):
         sp = dict(spec)
-        if attempt:
+        if extra_ctx:
+            sp["ctx"] = (sp["ctx"] + " " + " ".join(extra_ctx)).strip()
+        if last == "partial":
             sp["partial"] = True
         ctx = Ctx(sp, spec["rust"], toks)
         ctx.used |= set(LEAN_KEYWORDS) | set(ctx_names(sp["ctx"])) | {"st", "rest", "s", "σ", "τ"}
@@ -1959,6 +2160,12 @@ def compile_fn(spec, toks):
         except NeedPartial:
             last = "partial"
             continue
+        if ctx.new_state:
+            raise Differs("; ".join(ctx.new_state))
+        more = extend_ctx(sp, [text] + ctx.loops)
+        if more:
+            extra_ctx += more
+            continue
         T = LEAN_TY.get(rty, "Unit")
         if rty == "elems":
             T = "List Elem"
@@ -2018,14 +2225,28 @@ def main():
                 raise Untranslatable("forced alias mode (SDDCORE_FORCE_ALIAS)")
             if spec["file"] not in toks_cache:
                 toks_cache[spec["file"]] = tokenize(open(os.path.join(REPO, spec["file"])).read())
-            text, nl = compile_fn(spec, toks_cache[spec["file"]])
+            override, note = None, ""
+            if spec["file"] == M:
+                # a default method of the trait may have been overridden in the SDD impl block
+                if B not in toks_cache:
+                    toks_cache[B] = tokenize(open(os.path.join(REPO, B)).read())
+                try:
+                    override = find_fn(toks_cache[B], spec["rust"], after=IMPL_ANCHOR)
+                    note = "; OVERRIDE of the trait default found in %s, translated instead of the default" % B
+                except Untranslatable:
+                    override = None
+            text, nl = compile_fn(spec, toks_cache[B] if override else toks_cache[spec["file"]], override)
             extra = ""
             if nl < len(spec["loops"]):
                 # fewer loops than the tie file names: define the missing names as aliases so that the
                 # file elaborates; the tie of the function itself still compares the real definition
                 extra = "".join("abbrev %s := %s\n" % (n, a) for n, a in spec["loops"][nl:])
             parts.append("/-- `%s` (%s) -/\n%s%s" % (spec["rust"], spec["file"], text, extra))
-            status[key] = "translated (Gen.SddCore.%s%s)" % (spec["lean"], ", %d loop definitions" % nl if nl else "")
+            status[key] = "translated (Gen.SddCore.%s%s)%s" % (spec["lean"], ", %d loop definitions" % nl if nl else "", note)
+        except Differs as e:
+            parts.append("-- `%s` WAS READ and DIFFERS from the model (new state: %s): alias kept so that the build stays green\n%s"
+                         % (spec["rust"], str(e).replace("\n", " "), fallback(spec)))
+            status[key] = "DIFFERS (new state): %s" % e
         except Untranslatable as e:
             parts.append("-- TRANSLATOR ROUTE NOT AVAILABLE for `%s` (%s): alias of the hand-written model\n%s"
                          % (spec["rust"], str(e).replace("\n", " "), fallback(spec)))
